@@ -179,3 +179,46 @@ func cmpLit(e ast.Expr, lhs string, op token.Token) (int64, bool) {
 
 func bp(b bool) *bool   { return &b }
 func ip(i int64) *int64 { return &i }
+
+// skeleton flattens a statement list into one string per simple statement, with `if c {` / `} else {` / `for {` / `}` lines
+// for the compound ones: the shape of a function body as a list a Lean fact can be compared with.
+func skeleton(list []ast.Stmt) []string {
+	var out []string
+	for _, st := range list {
+		switch x := st.(type) {
+		case *ast.IfStmt:
+			h := "if "
+			if x.Init != nil {
+				h += src(x.Init) + "; "
+			}
+			out = append(out, h+src(x.Cond)+" {")
+			out = append(out, skeleton(x.Body.List)...)
+			if x.Else != nil {
+				out = append(out, "} else {")
+				switch e := x.Else.(type) {
+				case *ast.BlockStmt:
+					out = append(out, skeleton(e.List)...)
+				default:
+					out = append(out, skeleton([]ast.Stmt{e})...)
+				}
+			}
+			out = append(out, "}")
+		case *ast.ForStmt:
+			h := "for"
+			if x.Cond != nil {
+				h += " " + src(x.Cond)
+			}
+			out = append(out, h+" {")
+			out = append(out, skeleton(x.Body.List)...)
+			out = append(out, "}")
+		case *ast.BlockStmt:
+			out = append(out, skeleton(x.List)...)
+		case *ast.LabeledStmt:
+			out = append(out, x.Label.Name+":")
+			out = append(out, skeleton([]ast.Stmt{x.Stmt})...)
+		default:
+			out = append(out, strings.Join(strings.Fields(src(st)), " "))
+		}
+	}
+	return out
+}
